@@ -217,3 +217,53 @@ Section FormsTop.
     - apply render_reparse. exact long_form_wellformed.
   Qed.
 End FormsTop.
+
+(* The value/extension of an identified tag is literally a piece of the written text (or the "/#" of the
+   placeholder spelling) -- for EVERY table (no well-formedness needed), every text, before and after the
+   repairs.  So texts that differ in the letter case of a value keep different values in both forms: no
+   conversion, of a single tag or of a cell of a column, may hand one text the value of another. *)
+Section ExtensionVerbatim.
+  Variable foldc : N -> str.
+  Variable fx : fixes.
+  Variable T : table.
+
+  Lemma walk_from_table' ps : forall cur e i m,
+    walk fx T ps cur = (Some (e, i), m) -> cur = Some (e, i) \/ exists k, lookup k (long_form_tags T) = Some e.
+  Proof.
+    induction ps as [|[k0 i0] rest IH]; intros cur e i m W; cbn [walk] in W.
+    - inversion W. left. reflexivity.
+    - unfold walk_entry in W. destruct (lookup k0 (long_form_tags T)) as [e0|] eqn:E0.
+      + destruct (fix_hash fx && ends_slash_hash (e_name e0))%bool.
+        * inversion W. left. reflexivity.
+        * destruct (IH _ _ _ _ W) as [C|C]; [|right; exact C]. inversion C; subst. right. eauto.
+      + inversion W. left. reflexivity.
+  Qed.
+
+  Lemma extension_is_written tag ns e ext :
+    find_tag_entry_ foldc fx T tag ns = Found e ext ->
+    ext = s_slash_hash \/ exists i, ext = skipn i (skipn (length ns) tag).
+  Proof.
+    unfold find_tag_entry_. cbv zeta. set (clean := skipn (length ns) tag).
+    destruct (lookup (Schema.fold foldc clean) (long_form_tags T)) as [e0|] eqn:D.
+    - intro H. inversion H; subst.
+      destruct (ends_slash_hash (Schema.fold foldc clean)) eqn:E.
+      + left. unfold ends_slash_hash in E. apply str_eqb_spec in E. exact E.
+      + right. exists (length clean). rewrite skipn_all. reflexivity.
+    - destruct (find_tag_subfunction foldc fx T clean) as [err|[e0 idx]] eqn:F; [discriminate|].
+      destruct (skipn idx clean) as [|c0 r0] eqn:R.
+      + intro H. inversion H; subst. right. exists idx. auto.
+      + destruct (takes_value_child foldc T e0) as [v|]; intro H; inversion H; subst; right; exists idx; auto.
+  Qed.
+
+  Lemma hedtag_extension_is_written sns t :
+    let h := hedtag_init foldc fx T sns t in
+    ht_entry h <> None ->
+    ht_ext h = s_slash_hash \/ exists i, ht_ext h = skipn i (skipn (length (get_schema_namespace t)) t).
+  Proof.
+    cbv zeta. unfold hedtag_init, find_tag_entry.
+    destruct (str_eqb (get_schema_namespace t) sns); [|intro H; exfalso; apply H; reflexivity].
+    destruct (find_tag_entry_ foldc fx T t (get_schema_namespace t)) as [e ext|err] eqn:F;
+      [|intro H; exfalso; apply H; reflexivity].
+    intros _. cbn [ht_ext]. exact (extension_is_written _ _ _ _ F).
+  Qed.
+End ExtensionVerbatim.
